@@ -168,6 +168,7 @@ def run(pid: str, tier: str, seed: int, selftest=False, replay=None) -> int:
                               {"source": c["text"], "after": c["after"], "places": c["places"], "clause": verdict})
     # ---------------- (a) allocation size
     scases = []
+    prev_size_text = None
     for k in range(150 if quick else 3000):
         rank = rng.choice([1, 2, 2, 3])
         el, w = rng.choice([("i8", 1), ("i16", 2), ("i32", 4), ("i64", 8)])
@@ -218,6 +219,10 @@ def run(pid: str, tier: str, seed: int, selftest=False, replay=None) -> int:
 }}
 """
         name = f"size:{seed}:{k}"
+        own = text
+        if k % 3 == 0:
+            text = repo.add_companion(text, prev_size_text)      # one pass run over two functions; @f is judged
+        prev_size_text = own
         try:
             src = repo.parse(text)
             src.verify()
